@@ -177,6 +177,10 @@ func extractFunc(f Facts, fset *token.FileSet, info *types.Info, dir, fn string,
 					}
 				}
 			case *ast.AssignStmt:
+				// main.go's mapping assembly: which field of a schema mapping is set from what, under which conditions
+				if dir == "." && len(t.Lhs) == 1 && strings.HasPrefix(text(fset, t.Lhs[0]), "mapping.") {
+					f["cliOrder"] = append(f["cliOrder"], fn+": "+text(fset, t)+" when ["+strings.Join(conds, " && ")+"]")
+				}
 				for i, l := range t.Lhs {
 					if id, ok := l.(*ast.Ident); ok && id.Name == "_" {
 						rhs := t.Rhs[0]
